@@ -71,6 +71,7 @@ type sexec struct {
 	names     map[string]int // table file name -> canonical id
 	tmps      map[string]int
 	tabInfo   map[string]string // cached decoded table content
+	tabHash   map[string]reftable.HashID
 	commits   []int             // tx ids in commit order (from the list-rename events)
 	lastTx    map[int]int       // handle -> tx being added
 	viol      []string
@@ -448,7 +449,7 @@ type schedule struct {
 
 func newExec(dir string, cfg reftable.Config, scripts [][]sop) *sexec {
 	e := &sexec{dir: dir, cfg: cfg, back: make(chan int), names: map[string]int{}, tmps: map[string]int{},
-		tabInfo: map[string]string{}, lastTx: map[int]int{}, clock: time.Unix(1000000, 0)}
+		tabInfo: map[string]string{}, tabHash: map[string]reftable.HashID{}, lastTx: map[int]int{}, clock: time.Unix(1000000, 0)}
 	for i, s := range scripts {
 		e.handles = append(e.handles, &shandle{id: i, resume: make(chan bool), script: s})
 	}
@@ -582,21 +583,22 @@ func (e *sexec) snap() snapshot {
 	return s
 }
 
-// decoded content of a table file: "min-max:tx,tx,..." or an error marker; cached (tables are immutable)
-func (e *sexec) tableInfo(name string) string {
+// decoded content of a table file: "min-max:tx,tx,..." or an error marker, and its hash id; cached (tables are immutable)
+func (e *sexec) tableInfo(name string) (string, reftable.HashID) {
 	if v, ok := e.tabInfo[name]; ok {
-		return v
+		return v, e.tabHash[name]
 	}
 	data, err := ioutil.ReadFile(filepath.Join(e.dir, name))
 	if err != nil {
-		return "MISSING"
+		return "MISSING", reftable.NullHashID
 	}
-	v := decodeTableInfo(data, e.cfg)
+	v, h := decodeTableInfo(data)
 	e.tabInfo[name] = v
-	return v
+	e.tabHash[name] = h
+	return v, h
 }
 
-func decodeTableInfo(data []byte, cfg reftable.Config) (res string) {
+func decodeTableInfo(data []byte) (res string, hid reftable.HashID) {
 	defer func() {
 		if r := recover(); r != nil {
 			res = "CORRUPT"
@@ -604,18 +606,12 @@ func decodeTableInfo(data []byte, cfg reftable.Config) (res string) {
 	}()
 	rd, err := reftable.NewReader(&reftable.ByteBlockSource{Source: data}, "x")
 	if err != nil {
-		return "CORRUPT"
+		return "CORRUPT", reftable.NullHashID
 	}
-	want := cfg.HashID
-	if want == reftable.NullHashID {
-		want = reftable.SHA1ID
-	}
-	if rd.HashID() != want {
-		return "WRONGHASH"
-	}
+	hid = rd.HashID()
 	it, err := rd.SeekRef("")
 	if err != nil {
-		return "CORRUPT"
+		return "CORRUPT", hid
 	}
 	type tu struct {
 		tx int
@@ -626,7 +622,7 @@ func decodeTableInfo(data []byte, cfg reftable.Config) (res string) {
 		var r reftable.RefRecord
 		ok, err := it.NextRef(&r)
 		if err != nil {
-			return "CORRUPT"
+			return "CORRUPT", hid
 		}
 		if !ok {
 			break
@@ -643,18 +639,26 @@ func decodeTableInfo(data []byte, cfg reftable.Config) (res string) {
 		s = append(s, fmt.Sprint(t.tx))
 	}
 	fs, hsz := 68, 24
-	if want == reftable.SHA256ID {
+	if hid == reftable.SHA256ID {
 		fs, hsz = 72, 28
 	}
-	return fmt.Sprintf("%d-%d:%s:%d", rd.MinUpdateIndex(), rd.MaxUpdateIndex(), strings.Join(s, ","), len(data)-fs-(hsz-1))
+	return fmt.Sprintf("%d-%d:%s:%d", rd.MinUpdateIndex(), rd.MaxUpdateIndex(), strings.Join(s, ","), len(data)-fs-(hsz-1)), hid
 }
 
 // canonical rendering of a snapshot: L=<ids>|<id>=<info>,...|files=<classes>
 func (e *sexec) renderSnap(s snapshot) string {
 	var ids, infos, classes []string
-	for _, n := range s.list {
+	// the stack's hash type is that of the first listed table; a listed table of another type is bad
+	var stackHash reftable.HashID
+	for i, n := range s.list {
 		ids = append(ids, fmt.Sprint(e.tabID(n)))
-		infos = append(infos, fmt.Sprintf("%d=%s", e.tabID(n), e.tableInfo(n)))
+		info, h := e.tableInfo(n)
+		if i == 0 {
+			stackHash = h
+		} else if h != stackHash && info != "MISSING" && info != "CORRUPT" {
+			info = "WRONGHASH"
+		}
+		infos = append(infos, fmt.Sprintf("%d=%s", e.tabID(n), info))
 	}
 	for _, f := range s.files {
 		classes = append(classes, e.canon(filepath.Join(e.dir, f)))
